@@ -4,7 +4,7 @@
        `circ.id in self.circuits`, `circ.state` and Circuit.when_built()),
      circuit._CircuitAttacher, circuit._get_circuit_attacher (module-level cache),
      TorCircuitEndpoint.connect (an inlineCallbacks coroutine = an explicit stage machine here),
-     attacher.PriorityAttacher (heapq array; iterated in ARRAY order),
+     attacher.PriorityAttacher (heapq array; attach_stream iterates a copy sorted by (priority, counter)),
      TorControlProtocol.queue_command/_maybe_issue_command/_broadcast_response as a command channel
        (one command in flight, FIFO, the callback of a reply runs before the next command is written).
    Python objects are numbers: circuit objects by creation order (oid), connections by the number the
@@ -181,7 +181,16 @@ Definition take_answer (s : st) (sid : N) (a : answer) : st * list ev :=
   | _ => issue s sid (a_kind a)
   end.
 
-(* PriorityAttacher.attach_stream: the heap ARRAY in order *)
+(* sorted(self._attacher_heap, key=lambda item: item[:2]): by (priority, counter); the counters are unique *)
+Definition hlt (a b : hent) : bool := (h_prio a <? h_prio b) || ((h_prio a =? h_prio b) && (h_cnt a <? h_cnt b)).
+Fixpoint insert_h (x : hent) (l : list hent) : list hent :=
+  match l with
+  | [] => [x]
+  | y :: r => if hlt y x then y :: insert_h x r else x :: l
+  end.
+Definition sort_hents (l : list hent) : list hent := fold_right insert_h [] l.
+
+(* PriorityAttacher.attach_stream: a sorted copy of the heap array, in order *)
 Fixpoint prio_consult (s : st) (sid : N) (answers : list answer) (h : list hent) : list ev * option answer :=
   match h with
   | [] => ([], None)
@@ -209,7 +218,7 @@ Definition table_set (k : N * N) (v : nat * nat) (l : list ((N * N) * (nat * nat
 Definition then_ (r : st * list ev) (f : st -> st * list ev) : st * list ev :=
   let '(s1, e1) := r in let '(s2, e2) := f s1 in (s2, e1 ++ e2).
 
-(* _CircuitAttacher.attach_stream *)
+(* _CircuitAttacher.attach_stream; an unusable registered circuit answers TorState.DO_NOT_ATTACH *)
 Definition circ_attach (s : st) (sid : N) (src : source) : st * list ev :=
   match src with
   | SrcIp ip port =>
@@ -224,9 +233,9 @@ Definition circ_attach (s : st) (sid : N) (src : source) : st * list ev :=
               match fired with
               | None => (with_oos s1, [])           (* would wait for the circuit; not reachable through connect() *)
               | Some FOk =>
-                  if c_terminal (c_st c) then then_ (att_fire s1 k (RFail 1)) (fun s2 => issue s2 sid AKNone)
+                  if c_terminal (c_st c) then then_ (att_fire s1 k (RFail 1)) (fun s2 => issue s2 sid AKDoNot)
                   else then_ (att_fire s1 k ROk) (fun s2 => issue s2 sid (AKCirc oid))
-              | Some f => then_ (att_fire s1 k (RFail (fres_kind f))) (fun s2 => issue s2 sid AKNone)
+              | Some f => then_ (att_fire s1 k (RFail (fres_kind f))) (fun s2 => issue s2 sid AKDoNot)
               end
           end
       end
@@ -238,18 +247,17 @@ Definition maybe_attach (s : st) (sid : N) (host : bytes) (src : source) (answer
   match slot s with
   | None => (s, [])
   | Some v =>
-      if contains (str ".exit") host then (s, []) else
+      if ends_with (str ".exit") (lower host) then (s, []) else      (* target_host.lower().endswith('.exit') *)
       match v with
       | SCustom j => then_ (s, [EAsked j sid]) (fun s1 => take_answer s1 sid (ans answers j))
       | SPrio =>
-          let '(es, w) := prio_consult s sid answers (heap s) in
+          let '(es, w) := prio_consult s sid answers (sort_hents (heap s)) in
           then_ (s, es) (fun s1 => match w with Some a => take_answer s1 sid a | None => issue s1 sid AKNone end)
       | SCirc => circ_attach s sid src
       end
   end.
 
 (* ---- heapq ---- *)
-Definition hlt (a b : hent) : bool := (h_prio a <? h_prio b) || ((h_prio a =? h_prio b) && (h_cnt a <? h_cnt b)).
 Fixpoint siftdown (fuel : nat) (h : list hent) (x : hent) (pos : nat) : list hent :=
   match fuel, pos with
   | S f, S p' =>
